@@ -31,10 +31,10 @@ type StackOpts struct {
 	Profiling   bool
 	Excess      int
 	MaxTries    int
-	Ignore      []*chainhash.Hash                            // Params.HeadersToIgnore
-	Checkpoints []chaincfg.Checkpoint                        // config.Checkpoints (nil = one far checkpoint)
+	Ignore      []*chainhash.Hash                           // Params.HeadersToIgnore
+	Checkpoints []chaincfg.Checkpoint                       // config.Checkpoints (nil = one far checkpoint)
 	WrapHeaders func(repository.Headers) repository.Headers // decorator (recording / fault injection / scheduler)
-	PreparedDb  string                                       // when set: prepared_db=true with this file
+	PreparedDb  string                                      // when set: prepared_db=true with this file
 	NoEngine    bool
 	WebhookCli  notification.WebhookTargetClient // nil = production client
 }
